@@ -298,6 +298,7 @@ class Loop:
     order: Any = None        # None = binder order (index); or list of sort key terms (SELECT ... ORDER BY)
     unordered: bool = False  # order unspecified (SELECT without ORDER BY, set iteration)
     src: Any = None          # the sequence object this loop ranges over (provenance, for SQL bind maps)
+    reverse: bool = False    # iterated in reverse order (reversed(...))
 
 
 class Seq(SeqBase):
